@@ -90,7 +90,7 @@ Print Assumptions rfc7233_refuted_digit_limit.
 (* the source text the hand-written model transcribes is unchanged *)
 Theorem pins :
   (pin_parse_range_header, pin_render, pin_render_GET, pin_render_HEAD)
-  = ("488969ddb09469cd", "9aa1cd0cbe4e6eb3", "c70737a82053c8e3", "6809f39ac1d9c28f")%string /\
+  = ("488969ddb09469cd", "9e63d164e15f8e2d", "c70737a82053c8e3", "6809f39ac1d9c28f")%string /\
   (range_unit, content_range_formats, unsatisfiable_status, partial_status)
   = (bytes_of_string "bytes", ["bytes */%s"; "bytes %s-%s/%s"]%string, 416, 206).
 Proof. exact pins_ok. Qed.
